@@ -780,7 +780,9 @@ func TestC08Rapid(t *testing.T) {
 func TestC08Fixed(t *testing.T) {
 	desc := "interface org.example.fixed\ntype T (f: int, g: ?T, h: []T, e: (one, two))\ntype E (alpha, beta)\n" +
 		"method All(b: bool, i: int, fl: float, s: string, o: object, t: T, e: E, oi: ?int, ot: ?T, ai: []int, aoi: []?int, m: [string]T, an: (x: int, y: ?(z: string)), oan: ?(q: []int), type: string, func: ?bool) -> (r: T, list: [](k: string, v: ?object), e: E, none: ?string)\n" +
-		"method Empty() -> ()\nerror Failed (why: string, t: ?T, codes: []int)\nerror Plain\n"
+		// anonymous structs as map values, map values inside arrays and optionals, in every position
+		"method Shapes(ms: [string](w: int, note: ?string), am: [][string](p: bool), om: ?[string][](q: ?int)) -> (ms: [string](w: int, note: ?string), t: [string]T, am: [][string](p: bool))\n" +
+		"method Empty() -> ()\nerror Failed (why: string, t: ?T, codes: []int)\nerror Plain\nerror Shaped (ms: [string](w: int, note: ?string), om: ?[string][](q: ?int))\n"
 	tree := &Iface{}
 	st := NewStats("C08Fixed")
 	completed := false
@@ -825,6 +827,12 @@ func TestC08Fixed(t *testing.T) {
 			{Pkg: "k0", Iface: tree.Name, Method: "All", API: "call", In: in, Impl: "override", Reply: BReply{Kind: "error", Error: "Failed"}, Canned: []byte(`{"error":"org.example.fixed.Failed"}`)},
 			{Pkg: "k0", Iface: tree.Name, Method: "All", API: "call", In: in, Impl: "override", Reply: BReply{Kind: "error", Error: "Plain"}, Canned: []byte(`{"error":"org.example.fixed.Plain","parameters":null}`)},
 			{Pkg: "k0", Iface: tree.Name, Method: "All", API: "call", In: in, Impl: "override", Reply: BReply{Kind: "error", Error: "Failed"}, Canned: []byte(`{"error":"org.example.fixed.Failed","parameters":{"why":17}}`)},
+			{Pkg: "k0", Iface: tree.Name, Method: "Shapes", API: "call", Impl: "override",
+				In:    []json.RawMessage{json.RawMessage(`{"a":{"w":1,"note":"n"},"B":{"w":-2,"note":null}}`), json.RawMessage(`[{"k":{"p":true}},{}]`), json.RawMessage(`{"x":[{"q":1},{"q":null}],"y":[]}`)},
+				Reply: BReply{Kind: "reply", Out: []json.RawMessage{json.RawMessage(`{"z":{"w":0,"note":""}}`), json.RawMessage(`{"t":` + tv + `}`), json.RawMessage(`[{"k":{"p":false}}]`)}}},
+			{Pkg: "k0", Iface: tree.Name, Method: "Shapes", API: "call", Impl: "override",
+				In:    []json.RawMessage{json.RawMessage(`{}`), json.RawMessage(`[]`), json.RawMessage(`null`)},
+				Reply: BReply{Kind: "error", Error: "Shaped", Out: []json.RawMessage{json.RawMessage(`{"e":{"w":7,"note":null}}`), json.RawMessage(`{"o":[{"q":5}]}`)}}},
 			{Pkg: "k0", Iface: tree.Name, Method: "Empty", API: "call", In: []json.RawMessage{}, Impl: "override", Reply: BReply{Kind: "reply"}},
 			{Pkg: "k0", Iface: tree.Name, Method: "NoSuchMethodZz", API: "raw", Raw: []byte(`{"method":"org.example.fixed.NoSuchMethodZz"}`)},
 			{Pkg: "k0", Iface: tree.Name, Method: "All", API: "raw", Raw: []byte(`{"method":"org.example.fixed.All","parameters":"nope"}`)},
